@@ -78,7 +78,7 @@ return e'''
 
 def floors(tier):
     return {"oracle.visit==fresh-context": 1500, "sets.mutator-reader-pairs": 40, "sets.page-op-pairs": 150,
-            "counters.visit.kind.lua-reader": 100, "counters.visit.kind.soup-open": 50, "counters.foreign-contexts-created": 4, "counters.virtual-time-jumps": 100, "counters.config-victim-visits.ext": 9, "counters.config-victim-visits.alias": 9,
+            "counters.visit.kind.lua-reader": 100, "counters.visit.kind.soup-open": 50, "counters.visit.kind.raises": 30, "counters.visits-that-raised": 20, "counters.foreign-contexts-created": 4, "counters.virtual-time-jumps": 100, "counters.config-victim-visits.ext": 9, "counters.config-victim-visits.alias": 9,
             "sets.ops": 6}
 
 
@@ -115,6 +115,11 @@ def corpus(rng):
                       "text": "{{#invoke:mut %s|f}}|{{#invoke:reader|f|n= v }}" % k})
     pages.append({"name": "Reader", "kind": "lua-reader", "text": "{{#invoke:reader|f|n= v }}"})
     pages.append({"name": "ReaderT", "kind": "lua-reader", "text": "{{wr| q }} {{#invoke:reader|f|n=2}}"})
+    # pages on which the call itself raises (RecursionError out of parse()/expand(): nesting far beyond the interpreter's
+    # limit); the page handler of a dump run catches that and goes on with the next page on the same context
+    for i, (o, c) in enumerate([("{{ta|", "}}"), ("[[a|", "]]"), ("{{{x|", "}}}"), ("{{#if:x|", "}}"), ("<div>", "</div>"),
+                                ("{|\n|", "\n|}"), ("[[a|{{ta|", "}}]]")]):
+        pages.append({"name": "Raise%d" % i, "kind": "raises", "text": "* l\n" + o * 700 + "z" + c * 700 + "\n* m"})
     pages.append({"name": "LuaErr", "kind": "lua-error", "text": "{{#invoke:reader|nofn}} {{#invoke:nomod|f}} {{#invoke:bad|f}}"})
     return pages
 
@@ -179,6 +184,8 @@ def visit(ctx, page, op):
                 res["wikitext"] = ctx.node_to_wikitext(ctx.parse(text))
     except CpuBudget:
         res["exception"] = "CPU-BUDGET"
+    except RecursionError:
+        res["exception"] = "RecursionError"     # the frame it surfaces in depends on the caller's own stack depth
     except Exception as e:
         res["exception"] = exc_sig(e)
     ret = ctx.to_return()
@@ -356,6 +363,8 @@ def run_history(db, hist, base, obs, record=True, cfg="default"):
                                      "text": p["text"][:160], "result": repr(got)[:160]})
                     if prev[2].startswith("lua-mutator") and p["kind"] == "lua-reader":
                         obs.add("mutator-reader-pairs", prev[2] + ">" + p["name"])
+            if record and "exception" in got:
+                obs.count("visits-that-raised")
             d = diff_kind(got, want)
             leaks = reader_leaks(got)
             if record and "reader" in p["text"]:
@@ -440,6 +449,11 @@ def run_shard(spec):
         allpairs = [(m, r, op) for m in muts for r in readers for op in ("expand", "parse_all")]
         for m, r, op in allpairs[spec["idx"]::16]:
             hists.append([(m, "expand"), (r, op)])
+    # a visit whose call raises, then ordinary pages on the same context (split over the shards)
+    raisers = [p for p in pages if p["kind"] == "raises"]
+    rp = [(r, op) for r in raisers for op in ("parse", "parse_pre", "parse_all", "expand")]
+    for r, op in rp[spec["idx"]::16]:
+        hists.append([(r, op)] + [(rng.choice(pages), rng.choice(OPS)) for _ in range(4)])
     # configuration victims: a context with OTHER options, created after default contexts (and after the foreign
     # contexts above) exist in this process, must behave like the same configuration in a pristine process
     for cfg in ("ext", "alias", "redef", "fr", "de-wikipedia"):
